@@ -127,7 +127,11 @@ fn decode(tape: &[u32]) -> Case {
         }
         2 => {
             let seed = decode_seed(&mut t);
-            let len = if t.chance(1, 8) { t.usize(65, 1500) } else { t.usize(0, 64) };
+            let mut len = if t.chance(1, 8) { t.usize(65, 1500) } else { t.usize(0, 64) };
+            // one shuffle in 4000 is longer than 2^24 elements (vector lengths beyond exact f32 integers)
+            if t.chance(1, 4000) {
+                len = (1usize << 24) + t.usize(1, 9);
+            }
             let distinct = t.usize(1, 8);
             let dup = t.bool();
             let values = (0..len).map(|i| if dup { (i * 7 + 3) % distinct } else { i }).collect();
@@ -212,7 +216,7 @@ fn check(case: &Case, ev: &mut CaseEv) -> CheckResult {
         }
         Case::Shuffle { seed, values } => {
             ev.class("shuffle");
-            ev.class(format!("shuffle:len{}", match values.len() { 0 => "0", 1 => "1", 2..=8 => "2-8", 9..=64 => "9-64", _ => ">64" }));
+            ev.class(format!("shuffle:len{}", match values.len() { 0 => "0", 1 => "1", 2..=8 => "2-8", 9..=64 => "9-64", 65..=1500 => ">64", _ => ">2^24" }));
             ev.nontrivial = values.len() >= 2;
             ev.set_sig(&("shuffle", seed, values.len()));
             let mut v = values.clone();
@@ -224,6 +228,14 @@ fn check(case: &Case, ev: &mut CaseEv) -> CheckResult {
             match r {
                 Err(p) => fail!("shuffle of {} elements with seed {} panicked: {}", values.len(), seed, p),
                 Ok(out) => {
+                    if values.len() > 100_000 {
+                        // multiset comparison by counting (values are < len)
+                        let mut cnt = vec![0i32; values.len()];
+                        values.iter().for_each(|v| cnt[*v] += 1);
+                        out.iter().for_each(|v| if *v < cnt.len() { cnt[*v] -= 1 });
+                        ensure!(out.len() == values.len() && cnt.iter().all(|c| *c == 0), "shuffle of {} elements with seed {} is not a permutation", values.len(), seed);
+                        return Ok(());
+                    }
                     let mut a = out.clone();
                     let mut b = values.clone();
                     a.sort();
@@ -298,7 +310,7 @@ impl Prop for C18 {
         t.pick(400_000, 10_000_000)
     }
     fn rule(&self) -> String {
-        "tape-decoded cases of five kinds (generate at a chosen generator state x interval class; purity of the sequence; shuffle with seeds of all magnitudes and lengths 0..1500 with duplicates; Tensor::random shapes of rank 1-4; seeds up to u64::MAX) plus enumeration of generator states (quick: 2^16 lowest + 2^16 highest + a seed-offset progression; thorough: all 2^31-2 states). Non-trivial: state within 2^16 of either end of the state space, or seed >= 2^32, or shuffle length >= 2, or tensor with >= 2 entries. Distinct = (kind, state/seed, interval bits / length / shape).".into()
+        "tape-decoded cases of five kinds (generate at a chosen generator state x interval class; purity of the sequence; shuffle with seeds of all magnitudes and lengths 0..1500 with duplicates (one in 4000: a length just above 2^24); Tensor::random shapes of rank 1-4; seeds up to u64::MAX) plus enumeration of generator states (quick: 2^16 lowest + 2^16 highest + a seed-offset progression; thorough: all 2^31-2 states). Non-trivial: state within 2^16 of either end of the state space, or seed >= 2^32, or shuffle length >= 2, or tensor with >= 2 entries. Distinct = (kind, state/seed, interval bits / length / shape).".into()
     }
     fn assumptions(&self) -> Vec<String> {
         vec!["Tensor::random seeds itself from the wall clock: its inputs are not reproducible, the assertion (shape, interval) is seed-independent".into()]
@@ -308,7 +320,10 @@ impl Prop for C18 {
         check(&c, ev)
     }
     fn describe(&self, tape: &[u32]) -> Value {
-        json!(format!("{:?}", decode(tape)))
+        match decode(tape) {
+            Case::Shuffle { seed, values } if values.len() > 64 => json!(format!("Shuffle {{ seed: {}, values: <{} elements> }}", seed, values.len())),
+            c => json!(format!("{:?}", c)),
+        }
     }
 }
 
